@@ -6,6 +6,10 @@ ALL = ["C%02d" % i for i in range(1, 21)]
 
 # id -> (engine, level, technique, text, note, design_ref)
 CHECKS = {
+ "C16": ("mc-remote", "model_checking",
+   "exhaustive enumeration of arrival batchings / windows / filters / window changes / search pagings, executed on the real stream code (library) and on the real server handlers via the in-binary driver",
+   "Library: every log of N<=6/8 messages x 2^N match patterns x stream/query x window ends x chunk sizes x every composition of N into arrival batches (x window extensions) on the real process_stream_new_msgs, judged after every tick. Server: 2160 (quick) / ~12k (thorough) scripted sessions on the real handlers - every filter set x window x kind x binary/text x arrival batching, one window change after every tick, all search pagings, index/time lookups for every message - compared with the filtered log computed from the generated file.",
+   "Trusted: driver hook, generated 6-message log, harness-side expected filtered log. Not covered: logs with several lifecycles per ECU for the time lookup, plugins altering the stream.", "4 C16"),
  "C11": ("mc-seq", "exploration",
    "exhaustive enumeration of abstract filters x message universe against an independent spec evaluator, through every library front-end",
    "All 256 criterion subsets x negated x enabled x kind, every single-criterion variant (incl. all 256 type bytes), all variant pairs, triples and (thorough) a full 8-criterion product are built through each front-end that can express them (JSON explicit/defaulted, DLF in two layouts, dlt-convert list, public fields as the --eac front-end sets them) and evaluated on a 1753-message universe against a three-valued spec evaluator written from the statement; JSON round trip must decide identically. Where statement and documentation leave the semantics undefined only agreement between front-ends is judged.",
